@@ -62,6 +62,38 @@ let lseq_case id count ops =
     (if tries = [] then "-" else String.concat "" tries) rets
     (if (snd !c O).lprog = [] then 1 else 0)
 
+(* ---- latch, lock-step on OS threads: count_down / wait / try_wait *)
+let llock_case id count progs sched =
+  let tn = List.length progs in
+  let parr = Array.of_list (List.map (fun p -> List.map lop_of (split_on ',' p)) progs) in
+  let progf t = let i = int_of_nat t in if i < tn then parr.(i) else [] in
+  let c = ref (latch_init (z_of_int count), latch_locals progf) in
+  let site t =
+    let l = snd !c t in
+    match l.lpcs with
+    | LIdle -> (match l.lprog with [] -> 0 | LCountDown _ :: _ -> 911 | LWait :: _ -> 914 | LTryWait :: _ -> 915 | LArriveWait _ :: _ -> 917)
+    | LNotify (true, _) -> 912 | LNotify (false, _) -> 913 | LAwNotify -> 918
+    | LSusp -> 9001 | LBlk -> 9002 | LRewait -> 916 in
+  let sites = Buffer.create 64 in
+  let first = ref true in
+  List.iter (fun s ->
+    let t = nat_of_int (int_of_string s) in
+    (* a blocked waiter that was resumed continues to its next hook on its own *)
+    if site t = 9002 then c := step (latch_tstep true) !c (t, ONorm);
+    if not !first then Buffer.add_char sites ',';
+    first := false;
+    Buffer.add_string sites (string_of_int (site t));
+    c := step (latch_tstep true) !c (t, ONorm)) (split_on ',' sched);
+  let g = fst !c in
+  let tries = Array.make tn "" and rets = Array.make tn 0 in
+  List.iter (function
+    | LTry (t, r) -> let i = int_of_nat t in tries.(i) <- (if r then "1" else "0") ^ tries.(i)
+    | LRet (t, _, _) -> let i = int_of_nat t in rets.(i) <- rets.(i) + 1) g.llog;
+  Printf.printf "OUT LLOCK %s sites=%s try=%s rets=%s\n" id
+    (if Buffer.length sites = 0 then "-" else Buffer.contents sites)
+    (String.concat "|" (Array.to_list tries))
+    (String.concat "," (Array.to_list (Array.map string_of_int rets)))
+
 (* ---- call_once, sequential: thread 0 makes k calls, plan.[i] = the i-th run throws *)
 let oseq_case id k plan =
   let c = ref (o_init, o_locals (fun t -> if int_of_nat t = 0 then nat_of_int k else O)) in
@@ -83,6 +115,10 @@ let () =
       | ["IN"; "BAR"; id; e0; _p; progs; sched] -> bar_case id (int_of_string e0) progs sched
       | ["IN"; "LSEQ"; id; count; ops] -> lseq_case id (int_of_string count) ops
       | ["IN"; "OSEQ"; id; k; plan] -> oseq_case id (int_of_string k) plan
+      | "IN" :: "LLOCK" :: id :: count :: t :: rest ->
+        let tn = int_of_string t in
+        let progs = List.filteri (fun i _ -> i < tn) rest in
+        llock_case id (int_of_string count) progs (List.nth rest tn)
       | _ -> ()
     done
   with End_of_file -> ()
